@@ -51,7 +51,8 @@ RULE = ("one case = one generated Modelica model with constants, parameters (sca
         "algebraic) and optionally a for-loop over vector variables; 1-4 delay() calls in equations, initial equations and "
         "loop bodies (also nested in a delayed expression or in a duration), durations drawn from every category mix, also "
         "reaching the offending symbol only below if-conditions / floor / ceil / sign; optionally a 2-D algebraic array; "
-        "options default / unroll_loops=False / expand_mx; stream simp: eliminated alias/eliminable variables in durations "
+        "options default / unroll_loops=False / expand_mx; a fixed seed-independent family of 2-4-delay models with the "
+        "single offending duration at every position between literal/parameter durations; stream simp: eliminated alias/eliminable variables in durations "
         "under the simplification options; stream cache: two calls on one folder with cache=True / codegen=True. non-trivial = at least one delay whose duration mentions a "
         "declared symbol, or at least two delays; distinct = distinct case description")
 TRUSTED = ["`ca.depends_on` is structural dependence for the generated durations (every symbol occurs once, no zero "
@@ -512,6 +513,78 @@ class Gen:
             opts = {"codegen": True} if r.random() < 0.12 else {"cache": True}
         return {"kind": "text", "stream": self.stream, "name": "M", "text": "\n".join(lines) + "\n", "options": opts,
                 "syms": S, "eqs": sub_eqs + eqs, "ieqs": ieqs}
+
+
+def family_cases():
+    """A fixed family, independent of the seed: models with 2-4 delays in separate equations, exactly one offending
+    duration at every position (and none), the other durations literal / parameter / constant / fixed-input in two
+    patterns — so that a check that stops at, skips after, or only looks at some delay shows on every run; plus
+    variants with the harmless delay in an initial equation (walked first) and two delays in one equation."""
+    S = {"c0": {"cat": "const", "dim": 0, "value": [2, 1]}, "p0": {"cat": "param", "dim": 0, "value": [3, 1]},
+         "uf0": {"cat": "ufix", "dim": 0}, "u0": {"cat": "ufree", "dim": 0}, "x0": {"cat": "state", "dim": 0},
+         "y0": {"cat": "alg", "dim": 0}}
+    decl = ["constant Real c0 = 2;", "parameter Real p0 = 3;", "input Real uf0(fixed = true);", "input Real u0;",
+            "Real x0;", "Real y0;"]
+    ref = lambda n: ["ref", n]
+    offenders = [["time"], ref("x0"), ["der", ref("x0")], ref("y0"), ref("u0"),
+                 ["op", "+", ref("p0"), ["op", "*", lit(2), ref("y0")]]]
+    harmless = {"A": [lit(2), lit(1), lit(Fraction(1, 2)), lit(3)],
+                "B": [ref("p0"), lit(2), ["op", "*", ref("c0"), ref("p0")], ref("uf0")]}
+    out = []
+    nid = [0]
+
+    def dl(a, d):
+        nid[0] += 1
+        return ["delay", a, d, nid[0]]
+
+    def model(durs, layout="sep"):
+        n = len(durs)
+        Sx = dict(S)
+        for j in range(n):
+            Sx["z%d" % j] = {"cat": "alg", "dim": 0}
+        exprs = [ref("x0"), ["op", "+", ref("y0"), lit(1)], ["op", "*", lit(2), ref("x0")], ref("u0")]
+        eqs = [["eq", ["der", ref("x0")], ["op", "+", ref("u0"), ref("uf0")]],
+               ["eq", ref("y0"), ["op", "+", ["op", "*", lit(2), ref("x0")], lit(1)]]]
+        ieqs = []
+        delays = [dl(exprs[j % 4], durs[j]) for j in range(n)]
+        if layout == "sep":
+            for j in range(n):
+                eqs.append(["eq", ref("z%d" % j), delays[j]])
+        elif layout == "ieq":  # the first delay in an initial equation: walked (and numbered) first
+            ieqs.append(["eq", ref("z0"), ["op", "+", delays[0], lit(1)]])
+            eqs.append(["eq", ref("z0"), ["op", "*", lit(2), ref("x0")]])
+            for j in range(1, n):
+                eqs.append(["eq", ref("z%d" % j), delays[j]])
+        else:  # "sum": the first two delays in one equation
+            eqs.append(["eq", ref("z0"), ["op", "+", delays[0], delays[1]]])
+            eqs.append(["eq", ref("z1"), ["op", "+", ref("x0"), lit(1)]])
+            for j in range(2, n):
+                eqs.append(["eq", ref("z%d" % j), delays[j]])
+        lines = ["model M"] + ["  " + d for d in decl + ["Real z%d;" % j for j in range(n)]] + ["equation"]
+        lines += [render_eq(q) for q in eqs]
+        if ieqs:
+            lines += ["initial equation"] + [render_eq(q) for q in ieqs]
+        lines += ["end M;"]
+        return {"kind": "text", "stream": "family", "name": "M", "text": "\n".join(lines) + "\n", "options": {},
+                "syms": Sx, "eqs": eqs, "ieqs": ieqs}
+
+    t = 0
+    for n in (2, 3, 4):
+        for pat in ("A", "B"):
+            h = harmless[pat]
+            out.append(model([h[j % 4] for j in range(n)]))  # no offender: accepted
+            for k in range(n):
+                for rep in range(2):
+                    off = offenders[t % len(offenders)]
+                    t += 1
+                    out.append(model([off if j == k else h[j % 4] for j in range(n)]))
+    for n in (2, 3):
+        for k in range(1, n):
+            for layout in ("ieq", "sum"):
+                off = offenders[t % len(offenders)]
+                t += 1
+                out.append(model([off if j == k else harmless["A"][j % 4] for j in range(n)], layout))
+    return out
 
 
 # =============================================================================================
@@ -1111,6 +1184,10 @@ def run(ctx):
     import random
     # the known-finding streams first; the others interleaved (shuffled), so that a run cut short by the time budget
     # on a loaded machine still covers every stream in proportion
+    for case in family_cases():  # deterministic, before anything that depends on the seed or the time budget
+        verdict = check_case(ctx, case, drv, random.Random(7))
+        ctx.case(case, nontrivial=True)
+        buckets(ctx, case, verdict)
     schedule = [st for st, n in plan[:2] for _ in range(n)]
     rest = [st for st, n in plan[2:] for _ in range(n)]
     ctx.rng.shuffle(rest)
